@@ -151,6 +151,17 @@ func VerifImportedGlobalsModule(owners []int, params, results, body []byte) []by
 	return m.encode()
 }
 
+// VerifImportedGlobalsModuleWithBump is VerifImportedGlobalsModule plus an imported function A.bump (function index 0; the
+// tested function is index 1) which adds one to A's g0.
+func VerifImportedGlobalsModuleWithBump(owners []int, params, results, body []byte) []byte {
+	m := &verifModule{tableMin: -1, funcs: []verifFunc{{params: params, results: results, body: body, export: "f"}}}
+	for _, k := range owners {
+		m.imports = append(m.imports, verifImport{module: "A", name: []string{"g0", "g1"}[k], kind: 3, desc: []byte{vI32, 0x01}})
+	}
+	m.imports = append(m.imports, verifImport{module: "A", name: "bump", kind: 0, params: []byte{}, results: []byte{}})
+	return m.encode()
+}
+
 // VerifInterpRunWithGlobalsExporter instantiates an exporter "A" of two mutable i32 globals g0, g1 (initial values init0,
 // init1, set through its own setter), then bin, calls bin's export f and returns results, trap kind and A's globals.
 func VerifInterpRunWithGlobalsExporter(bin []byte, init0, init1 uint32, args []uint64) (res []uint64, trap int, g0, g1 uint64, ok bool) {
@@ -159,7 +170,8 @@ func VerifInterpRunWithGlobalsExporter(bin []byte, init0, init1 uint32, args []u
 	a := &verifModule{tableMin: -1,
 		globals: []verifGlobal{{typ: vI32, mutable: true, init: []byte{0x41, 0x00}}, {typ: vI32, mutable: true, init: []byte{0x41, 0x00}}},
 		exports: []verifExport{{name: "g0", kind: 3, index: 0}, {name: "g1", kind: 3, index: 1}},
-		funcs:   []verifFunc{{params: []byte{vI32, vI32}, export: "init", body: []byte{0x20, 0x00, 0x24, 0x00, 0x20, 0x01, 0x24, 0x01}}}}
+		funcs: []verifFunc{{params: []byte{vI32, vI32}, export: "init", body: []byte{0x20, 0x00, 0x24, 0x00, 0x20, 0x01, 0x24, 0x01}},
+			{export: "bump", body: []byte{0x23, 0x00, 0x41, 0x01, 0x6a, 0x24, 0x00}}}}
 	va, err := w.guest(ctx, a, "A", nil, false)
 	if err != nil {
 		return nil, 0, 0, 0, false
